@@ -498,6 +498,130 @@ def wire_view(wire):
     return [status, -1, 0] + list(rest)
 
 
+def responder_fields(repo):
+    """(reads, writes) of `self` attributes per method of serving.Responder, from the AST; fail-closed"""
+    import ast
+    path = os.path.join(repo, "ioflo", "aio", "http", "serving.py")
+    tree = ast.parse(open(path).read())
+    cls = [n for n in tree.body if isinstance(n, ast.ClassDef) and n.name == "Responder"]
+    if len(cls) != 1:
+        raise ValueError("class Responder not found exactly once")
+    out = {}
+    for fn in cls[0].body:
+        if not isinstance(fn, ast.FunctionDef):
+            continue
+        reads, writes = set(), set()
+        for node in ast.walk(fn):
+            if isinstance(node, ast.Attribute) and isinstance(node.value, ast.Name) and node.value.id == "self":
+                if isinstance(node.ctx, ast.Store) or isinstance(node.ctx, ast.Del):
+                    writes.add(node.attr)
+                else:
+                    reads.add(node.attr)
+            # self.x[...] = v  /  self.x.update(...) mutate x
+            if isinstance(node, ast.Subscript) and isinstance(node.ctx, ast.Store):
+                v = node.value
+                if isinstance(v, ast.Attribute) and isinstance(v.value, ast.Name) and v.value.id == "self":
+                    writes.add(v.attr)
+            if isinstance(node, ast.AugAssign):
+                t = node.target
+                if isinstance(t, ast.Attribute) and isinstance(t.value, ast.Name) and t.value.id == "self":
+                    reads.add(t.attr)
+                    writes.add(t.attr)
+        out[fn.name] = (reads, writes)
+    for m in ("reset", "build", "write", "start", "service", "close"):
+        if m not in out:
+            raise ValueError("Responder.%s not found" % m)
+    return out
+
+
+def gen(ctx):
+    """regenerate coq/gen/C30_ResponderFields.v from the implementation under test"""
+    f = responder_fields(ctx.repo)
+    methods = ("build", "write", "start", "service")
+    reads = sorted(set().union(*[f[m][0] for m in methods]))
+    writes = sorted(set().union(*[f[m][1] for m in methods + ("close",)]))
+    resetw = sorted(f["reset"][1])
+
+    def cl(xs):
+        return "[" + "; ".join('"%s"' % x for x in xs) + "]"
+    text = ("(* GENERATED by props/C30/check.py from ioflo/aio/http/serving.py class Responder -- do not edit *)\n"
+            "From Coq Require Import String List.\nImport ListNotations.\nOpen Scope string_scope.\n"
+            "(* attributes of self READ by build / write / start / service *)\n"
+            "Definition response_reads : list string := %s.\n"
+            "(* attributes of self ASSIGNED (or mutated in place) by build / write / start / service / close *)\n"
+            "Definition response_writes : list string := %s.\n"
+            "(* attributes of self ASSIGNED by reset *)\n"
+            "Definition reset_writes : list string := %s.\n" % (cl(reads), cl(writes), cl(resetw)))
+    ctx.write_gen("C30_ResponderFields.v", text)
+    return f
+
+
+SEQ_KINDS = ["len", "chunked", "stream", "empty", "error_gen", "error_call", "raise0"]
+
+
+def seq_response(rng, kind):
+    """a response of the given class that is always complete (so the connection stays usable)"""
+    for _ in range(200):
+        r = gen_response(rng)
+        if kind == "raise0":
+            if r["kind"] == "raise" and not (r["start"] and any(r["pieces"])):
+                return r
+        elif r["kind"] == kind:
+            return r
+    raise ValueError(kind)
+
+
+def seq_request(rng):
+    for _ in range(200):
+        q = gen_request(rng)
+        if q["method"] != u"HEAD":        # (a reply to HEAD leaves its body on the connection: see meta.json)
+            return q
+    raise ValueError("request")
+
+
+def split_responses(wire, n):
+    """cut the server->client bytes of one connection into n response segments by their own framing"""
+    segs, buf = [], bytes(wire)
+    while buf and len(segs) < n:
+        k = buf.find(b"\r\n\r\n")
+        if k < 0:
+            break
+        head, rest = buf[:k], buf[k + 4:]
+        hd = {}
+        for l in head.split(b"\r\n")[1:]:
+            a, _, b = l.partition(b":")
+            hd[a.strip().lower()] = b.strip()
+        end = None
+        if hd.get(b"transfer-encoding", b"").lower() == b"chunked":
+            pos = 0
+            while True:
+                j = rest.find(b"\r\n", pos)
+                if j < 0:
+                    break
+                try:
+                    size = int(rest[pos:j], 16)
+                except ValueError:
+                    break
+                if size == 0:
+                    if rest[j + 2:j + 4] == b"\r\n":
+                        end = j + 4
+                    break
+                pos = j + 2 + size + 2
+        elif b"content-length" in hd:
+            cl = int(hd[b"content-length"])
+            if len(rest) >= cl:
+                end = cl
+        if end is None:
+            break
+        segs.append(buf[:k + 4 + end])
+        buf = rest[end:]
+    if buf and len(segs) < n:
+        segs.append(buf)
+    while len(segs) < n:
+        segs.append(b"")
+    return segs
+
+
 def run(ctx):
     ctx.rule = ("(A) per function: every single byte x 3 safe sets, all strings over '%+4aAgG ' up to length 3, seeded random "
                 "byte/unicode strings (quote, quote_plus, unquote, unquote_plus); random token-keyed query arguments with "
@@ -510,13 +634,17 @@ def run(ctx):
                 "yields, after body bytes, generator or plain callable, with/without declared Content-Length) through real Patron and Valet; non-trivial = value with a reserved or "
                 "non-ASCII character, or a length-less / error response")
     ctx.assumptions = [
-        "transport double fakenet (C31); one exchange per connection",
+        "transport double fakenet (C31); lone exchanges use a fresh connection, sequences of 2-3 exchanges share ONE keep-alive connection",
         "UTF-8 / latin-1 / JSON codecs and str() are CPython's: text enters the model as its UTF-8 bytes",
         "multipart/form-data bodies (random boundary) are not modelled",
         "header values are latin-1 text without CR/LF and without leading/trailing blanks; names are tokens",
     ]
     harness.fakenet.quiet()
-    ctx.coq_build(["C30/Props.v", "C30/PropsWhole.v"])
+    try:
+        gen(ctx)
+    except Exception as ex:
+        ctx.tie_broken("translator", "Responder field extraction", repr(ex))
+    ctx.coq_build(["C30/Props.v", "C30/PropsWhole.v", "C30/PropsReset.v"])
 
     bz, pz, sz = function_cases(ctx)
     for group, eqb, nm in ((bz, "lz_eqb", "fn_bytes"), (pz, "prs_eqb", "fn_pairs"), (sz, "pr_eqb", "fn_chunk")):
@@ -548,6 +676,34 @@ def run(ctx):
         why = exchange_violation(req, resp, out)
         if why:
             failing.append((req, resp, out, why))
+    # SEQUENCES of 2-3 exchanges on ONE keep-alive connection (reused Requestant / Responder): every
+    # ordered pair of response classes, plus seeded random triples (all triples in the thorough tier);
+    # each exchange is held against the same statement as a lone one, and its bytes on the wire
+    # against the model's serve_app of THAT exchange alone
+    seqs = [[a, b] for a in SEQ_KINDS for b in SEQ_KINDS]
+    if ctx.thorough:
+        seqs += [[a, b, c] for a in SEQ_KINDS for b in SEQ_KINDS for c in SEQ_KINDS]
+    else:
+        seqs += [[ctx.rng.choice(SEQ_KINDS) for _ in range(3)] for _ in range(25)]
+    seq_failing = []
+    for kinds in seqs:
+        pairs = [(seq_request(ctx.rng), seq_response(ctx.rng, k)) for k in kinds]
+        outs = harness.run_sequence(pairs)
+        segs = split_responses(outs[0]["response_wire"], len(pairs))
+        ctx.case({"sequence": kinds}, nontrivial=len(set(kinds)) > 1, kind="sequence:%d" % len(kinds))
+        for k, ((req, resp), out) in enumerate(zip(pairs, outs)):
+            why = exchange_violation(req, resp, out)
+            if why:
+                seq_failing.append((pairs, k, outs, "exchange %d of %d on one connection: %s" % (k + 1, len(pairs), why)))
+                break
+            if segs[k] and not out["error"]:
+                evcases.append(("(cv %s)" % c_events(resp_events(resp)), clist([cz(x) for x in wire_view(segs[k])], "Z")))
+                evmeta.append((req, resp, dict(out, response_wire=segs[k])))
+    for pairs, k, outs, why in seq_failing[:3]:
+        ctx.tie_broken("correspondence", "property statement on the implementation (sequence)",
+                       "%s; kinds=%r" % (why, [p[1]["kind"] for p in pairs]))
+    ctx.extra["sequence_failures"] = len(seq_failing)
+
     for group, eqb, nm in ((whead_cases, "lz_eqb", "whole_heads"), (wenv_cases, "prs_eqb", "whole_environ")):
         for c in group:
             ctx.case({"whole": repr(c[2])[:200]}, nontrivial=True, kind=c[2][0])
@@ -566,6 +722,24 @@ def run(ctx):
     ctx.exhaustive = False
 
     def search():
+        if seq_failing and not failing:
+            # an exchange that is fine alone but wrong after another one on the same connection
+            pairs, k, outs, why = min(seq_failing, key=lambda c: (len(c[0]), len(repr(c[0]))))
+            # shrink: the failing exchange and ONE predecessor
+            for j in range(k):
+                two = [pairs[j], pairs[k]]
+                o2 = harness.run_sequence(two)
+                w2 = exchange_violation(two[1][0], two[1][1], o2[1])
+                if w2 and not exchange_violation(two[0][0], two[0][1], o2[0]):
+                    pairs, k, outs, why = two, 1, o2, "exchange 2 of 2 on one connection: " + w2
+                    break
+            alone = harness.run_exchange(pairs[k][0], pairs[k][1])
+            return {"key": "responder-state-leaks-across-exchanges",
+                    "exchanges": [(repr(q), repr(r)) for q, r in pairs], "failing_exchange": k + 1, "why": why,
+                    "same_exchange_alone_ok": exchange_violation(pairs[k][0], pairs[k][1], alone) is None,
+                    "response_wire": repr(outs[0]["response_wire"][:900]),
+                    "client_got": repr(outs[k]["response"] and (outs[k]["response"]["status"], outs[k]["response"]["body"][:80])),
+                    "contradicts": "C30.PropsReset.responder_reset_clears_state / error_response_body"}
         cands = list(failing)
         # directed: the two shapes the theorems single out
         for req, resp in directed():
